@@ -186,7 +186,7 @@ func (e *env) keys(rng *rand.Rand, n int) {
 			for i, j := 0, len(rev)-2; i < j; i, j = i+2, j-2 {
 				rev[i], rev[i+1], rev[j], rev[j+1] = rev[j], rev[j+1], rev[i], rev[i+1]
 			}
-			for _, c := range [][2]string{{"upper-case", strings.ToUpper(root)}, {"last-digit-cut", root[:63]}, {"digit-appended", root + "0"}, {"0x-prefixed", "0x" + root}, {"byte-reversed", string(rev)}} {
+			for _, c := range [][2]string{{"upper-case", strings.ToUpper(root)}, {"last-digit-cut", root[:63]}, {"digit-appended", root + "0"}, {"0x-prefixed", "0x" + root}, {"byte-reversed", string(rev)}, {"sql-wildcard-tail", root[:20] + "%"}, {"sql-wildcard-digits", root[:62] + "__"}} {
 				if !try(c[0], c[1]) {
 					return
 				}
